@@ -127,8 +127,12 @@ package transaction
 //@ spec wfAttr(a Attribute) bool = (a.Type == OracleResponseT ==> is(a.Value, *OracleResponse) && a.Value.(*OracleResponse) != nil) && (a.Type == ConflictsT ==> is(a.Value, *Conflicts) && a.Value.(*Conflicts) != nil)
 //@ spec wfAttrs(t *Transaction) bool = forall(i, 0, len(t.Attributes), wfAttr(t.Attributes[i]))
 
+// Index of the first attribute of the type among the first k attributes, or -1.
+//@ spec firstIdx(t *Transaction, typ AttrType, k int) int decreases k = ite(k <= 0, -1, ite(firstIdx(t, typ, k-1) >= 0, firstIdx(t, typ, k-1), ite(t.Attributes[k-1].Type == typ, k-1, -1)))
 //@ func (*Transaction).GetAttributes
 //@ requires t != nil
+//@ ensures[first] (len(result) > 0) == (firstIdx(t, typ, len(t.Attributes)) >= 0) && (len(result) > 0 ==> firstIdx(t, typ, len(t.Attributes)) < len(t.Attributes) && result[0] == t.Attributes[firstIdx(t, typ, len(t.Attributes))])
+//@ loop 0 invariant[first] (len(result) > 0) == (firstIdx(t, typ, $i) >= 0) && (len(result) > 0 ==> firstIdx(t, typ, $i) < $i && result[0] == t.Attributes[firstIdx(t, typ, $i)])
 //@ ensures[typ] forall(i, 0, len(result), result[i].Type == typ)
 //@ ensures[src] forall(i, 0, len(result), exists(j, 0, len(t.Attributes), result[i] == t.Attributes[j]))
 //@ ensures[empty] (len(result) == 0) == !exists(j, 0, len(t.Attributes), t.Attributes[j].Type == typ)
